@@ -138,6 +138,7 @@ type loopInfo struct {
 	ordinal int
 	measure string // decreases value at head
 	hasDec  bool
+	clears  ssa.Value // recognised idiom "for k := range m { delete(m, k) }": the map being emptied
 }
 
 func (fx *FnExec) emit(format string, a ...any) {
@@ -191,7 +192,11 @@ func (fx *FnExec) oblige(kind, goal string, instr ssa.Instruction, comment strin
 	}
 	o := &Obligation{Kind: kind, Func: fx.Fn.String(), Goal: goal, PC: fx.cur.pc, prefix: len(fx.lines), fx: fx, Pos: pos, Src: src, Comment: comment}
 	fx.obls = append(fx.obls, o)
-	fx.assume(goal)
+	// obligations at a return are independent of each other (the path ends there); elsewhere
+	// execution continues only if the obligation held
+	if _, isRet := instr.(*ssa.Return); !isRet {
+		fx.assume(goal)
+	}
 	return o
 }
 
@@ -454,7 +459,7 @@ func (fx *FnExec) fieldHeap(sname string, st *types.Struct, i int) (string, stri
 
 func (fx *FnExec) elemHeap(elem types.Type) (string, string) {
 	es := fx.sortOf(elem)
-	return "E_" + sortID(es), "(Array Int (Array Int " + es + "))"
+	return fx.W.elemHeapName(elem), "(Array Int (Array Int " + es + "))"
 }
 
 func (fx *FnExec) cellHeap(elem types.Type) (string, string) {
